@@ -36,3 +36,18 @@ PROPS["C20"] = dict(
                  "binary keys are used only with case-sensitive tables and never mixed with string keys in one table",
                  "values are distinct non-NULL tokens"],
 )
+
+PROPS["C19"] = dict(
+    harness="logmath",
+    level="exploration",
+    technique="property-based testing with a long-double reference model; exhaustive sweep of the table index per generated (base, shift) configuration",
+    level_text="Each generated case fixes one (base, shift) configuration (the three the library uses plus generated bases in (1.00005,2] and shifts 0-12) and sweeps EVERY difference d from 0 to table_size+64 for five anchors against a long-double reference of log_b(b^x+b^y); symmetry, bounds, monotonicity, identity, add_exact and the log/exp round trip are asserted. Exhaustive in d per configuration, sampled over configurations.",
+    level_note="Trusted: libm long double log1pl/expl/logl as reference (error << 1e-6 unit), ASan/UBSan. Arguments stay within (log-zero, 2^27] so that x-y cannot overflow int, which is what callers pass.",
+    quick=dict(cases=600, maxlen=1400, budget=90),
+    thorough=dict(cases=20000, maxlen=1400, budget=900),
+    rule=("one case = one (base, shift) configuration [library: (1.0001,0), (1.0001,10), (1.0003,0); generated: base-1 log-uniform in [5e-5,1], "
+          "shift 0-12] swept over every table index d in [0, table_size+64] x 5 anchors, plus 40 far/identity pairs, 60 add_exact pairs and 400 "
+          "round-trip probabilities (log-uniform, exact powers, around 1). Every case is non-trivial (a full table sweep); distinct = distinct "
+          "(base, shift, anchors) text."),
+    assumptions=["log-probability arguments lie in (log-zero, 2^27] so differences do not overflow int"],
+)
